@@ -13,8 +13,9 @@ import numpy as np
 import vlib
 from props import calsim, c15
 
-THEOREMS = ['Libvna.Cal.solve_unique', 'Libvna.Cal.failed_solve_frame', 'Libvna.Cal.too_few_no_unique']
-FILES = ['Props/C01.lean', 'Props/C20.lean']
+THEOREMS = ['Libvna.Cal.solve_unique', 'Libvna.Cal.failed_solve_frame', 'Libvna.Cal.too_few_no_unique'] + ['Libvna.UF.' + t for t in (
+    'rt_compress', 'rt_link', 'union_st', 'build_st', 'conn_iff', 'conn_refl', 'conn_symm', 'conn_trans', 'conn_cell', 'conn_isolated')]
+FILES = ['Props/C01.lean', 'Props/C20.lean', 'Model/Connect.lean', 'Props/C20Conn.lean']
 
 DOF = {  # independent error terms (vnacal_new(3) table: terms - free) for a square p-port calibration
     'T8': lambda p: 4 * p - 1, 'U8': lambda p: 4 * p - 1, 'TE10': lambda p: p * p + 3 * p - 1, 'UE10': lambda p: p * p + 3 * p - 1,
@@ -165,9 +166,10 @@ def lin16_rank(sc, descs):
 def run(chk):
     rng = random.Random(chk.seed * 47 + 20)
     broken = []
-    c15.proof_side(chk, ['Libvna.Props.C20'], THEOREMS, FILES, broken)
-    chk.trusted += ['tools/props/calsim.py ground truth and Jacobian-rank identifiability test']
-    chk.checker_cmd = 'cd lean && lake build Libvna.Props.C20 && #print axioms'
+    c15.proof_side(chk, ['Libvna.Props.C20', 'Libvna.Props.C20Conn'], THEOREMS, FILES, broken)
+    chk.trusted += ['tools/props/calsim.py ground truth and Jacobian-rank identifiability test',
+                    'Model/Connect.lean hand model of find / build_connectivity_matrix, tied matrix by matrix through the guarded hook _vnacal_new_verif_connectivity_dump']
+    chk.checker_cmd = 'cd lean && lake build Libvna.Props.C20 Libvna.Props.C20Conn && #print axioms'
     exe, _ = vlib.build_c()
     quick = chk.tier == 'quick'
     runs = []
@@ -284,10 +286,120 @@ def run(chk):
             chk.violation('leak', '%s %dx%d: allocations remain after an add/solve history with failed attempts: %s' % (typ, n, n, o[-1]), sc.lines)
     unknown_histories(chk, exe, rng, (2 if quick else 15) * (3 if broken else 1))
     if not chk.violations:
+        connectivity_patterns(chk, exe, rng, (24 if quick else 400) * (3 if broken else 1), broken)
+    if not chk.violations:
         rect_histories(chk, exe, rng, (2 if quick else 12) * (3 if broken else 1))
     chk.samples = [[l[:100] for l in runs[0][2].lines[:6]]]
     if broken and not chk.violations:
         chk.violation('obligation', 'proof/correspondence obligations that no longer check:\n' + '\n'.join(broken[:30]), nofail=True)
+
+
+def closure(rows, cols, nz):
+    """which ports a chain of off-diagonal cells that are not known to be zero joins (either direction)"""
+    n = max(rows, cols)
+    reach = [[i == j for j in range(n)] for i in range(n)]
+    for r in range(rows):
+        for c in range(cols):
+            if r != c and nz[r * cols + c]:
+                reach[r][c] = reach[c][r] = True
+    for k in range(n):
+        for i in range(n):
+            for j in range(n):
+                if reach[i][k] and reach[k][j]:
+                    reach[i][j] = True
+    return [int(reach[i][j]) for i in range(n) for j in range(n)]
+
+
+def parse_conn_dump(o):
+    """`ok | rows cols has <cells> [: <matrix>] | ...` -> list of (rows, cols, has, cells, matrix)"""
+    if not o.startswith('ok'):
+        return None
+    res = []
+    for g in o[2:].split('|')[1:]:
+        left, _, right = g.partition(':')
+        t = [int(x) for x in left.split()]
+        res.append((t[0], t[1], t[2], t[3:], [int(x) for x in right.split()]))
+    return res
+
+
+def connectivity_patterns(chk, exe, rng, reps, broken):
+    """standards given as partly zero S matrices on a subset of 3..6 ports, in any port order: the library's record of which cells are
+    not known to be zero must be the one vnacal_new_add_mapped_matrix(3) describes, and its connectivity matrix must join exactly the
+    ports a chain of such cells joins (what decides which measured cells give equations and which are leakage samples); the same
+    patterns go to Model/Connect.lean (`conn_iff`) and the two matrices must be equal"""
+    seen = {}
+    for rep in range(reps):
+        typ = rng.choice(['T8', 'U8', 'TE10', 'UE10', 'UE14', 'E12'])
+        n = rng.choice([3, 4, 4, 5, 5, 6])
+        sc = calsim.Scenario(rng, typ, n, n, 1).begin()
+        want = []
+        for _ in range(rng.randint(1, 4)):
+            k = rng.randint(1, n)
+            ports = rng.sample(range(1, n + 1), k)
+            dens = rng.choice([0.15, 0.3, 0.6])
+            H = [[(rng.choice([0, 0, 1, 2]) if i == j else (rng.choice([1, 2]) if rng.random() < dens else 0)) for j in range(k)] for i in range(k)]
+            if k >= 3 and rng.random() < 0.4:
+                # a chain: consecutive ports joined by one cell each, in either direction
+                H = [[0] * k for _ in range(k)]
+                for i in range(k - 1):
+                    a, b = (i, i + 1) if rng.random() < 0.5 else (i + 1, i)
+                    if rng.random() < 0.85:
+                        H[a][b] = rng.choice([1, 2])
+            val = {0: 0.0, 1: 1.0, 2: -1.0}
+            S = calsim.embed(n, [q - 1 for q in ports], [[val[h] * 0.3 for h in row] for row in H], sc.others)
+            sc.lines.append('cal add %d mapped %s %d %d %s M %s' % (sc.n, sc.mtext(sc.meas([S])), k, k, ' '.join(str(h) for row in H for h in row),
+                                                                    ' '.join(str(q) for q in ports)))
+            nz = [1] * (n * n)
+            for r in range(n):
+                for c in range(n):
+                    rin, cin = (r + 1) in ports, (c + 1) in ports
+                    if rin and cin:
+                        nz[r * n + c] = int(H[ports.index(r + 1)][ports.index(c + 1)] != 0)
+                    elif rin != cin:
+                        nz[r * n + c] = 0
+            want.append(nz)
+        sc.lines.append('cal conn_dump %d' % sc.n)
+        idump = len(sc.lines) - 1
+        sc.lines += ['cal free 0', 'cal live']
+        out, rc, err = vlib.run_lines(exe, sc.lines, timeout=300)
+        chk.evaluations += 1
+        tag = 'partly zero standards on %s %dx%d' % (typ, n, n)
+        if rc != 0 or len(out) != len(sc.lines):
+            chk.violation('sanitizer-conn', '%s: crashed / sanitizer report:\n%s' % (tag, err[-1200:]), sc.lines[:len(out) + 1])
+            return
+        groups = parse_conn_dump(out[idump])
+        added = [o for l, o in zip(sc.lines, out) if ' mapped ' in l]
+        if groups is None or any(not o.startswith('ok') for o in added) or len(groups) != len(want):
+            chk.violation('conn-add', '%s: a valid partly zero standard was refused or not recorded: %s / %s' % (tag, [o[:40] for o in added], out[idump][:60]), sc.lines[:idump + 1])
+            return
+        for (rows, cols, has, cells_, mat), nz in zip(groups, want):
+            if (rows, cols) != (n, n) or not has:
+                chk.violation('conn-shape', '%s: recorded as %dx%d, connectivity matrix %s' % (tag, rows, cols, 'present' if has else 'missing'), sc.lines[:idump + 1])
+                return
+            if cells_ != nz:
+                chk.violation('conn-input', '%s: the cells the library takes as not known to be zero are\n  %s\nvnacal_new_add_mapped_matrix(3) gives\n  %s' % (
+                    tag, cells_, nz), sc.lines[:idump + 1])
+                return
+            exp = closure(rows, cols, cells_)
+            if mat != exp:
+                chk.violation('connectivity', '%s: cells not known to be zero %s: connectivity matrix\n  %s\nbut the ports joined by chains of such cells are\n  %s' % (
+                    tag, cells_, mat, exp), sc.lines[:idump + 1])
+                return
+            seen[(rows, cols, tuple(cells_))] = mat
+            chk.count('connectivity_matrices_ok')
+            chk.count('conn_classes_%d' % len(set(tuple(exp[i * n:(i + 1) * n]) for i in range(n))))
+        chk.distinct.add(('conn', typ, n, tuple(map(tuple, want))))
+    keys = list(seen)
+    mlines = ['uf %d %d %s' % (k[0], k[1], ' '.join(str(b) for b in k[2])) for k in keys]
+    mout, mrc, merr = vlib.run_lines(vlib.model_exe(), mlines, timeout=600)
+    if mrc != 0 or len(mout) != len(mlines):
+        broken.append('model driver failed on the connectivity patterns: %s' % merr[-200:])
+        return
+    for k, l, o in zip(keys, mlines, mout):
+        if o != 'ok ' + ' '.join(str(b) for b in seen[k]):
+            broken.append('correspondence: Model/Connect and build_connectivity_matrix differ on `%s`\n  library: %s\n  model  : %s' % (l, seen[k], o))
+            break
+        chk.count('connectivity_model_compared')
 
 
 def rect_histories(chk, exe, rng, reps):
